@@ -180,6 +180,13 @@ impl QueryComputing {
 
     pub const fn query_kind(&self) -> QueryKind { self.query_kind }
 
+    /// The transitive firewall callees collected so far by this computation.
+    pub const fn transitive_firewall_callees(
+        &self,
+    ) -> &scc::HashSet<QueryID, FxBuildHasher> {
+        &self.tfc
+    }
+
     pub fn caller_observe_tfc_callees(
         &self,
         callee_info: &NodeInfo,
